@@ -92,11 +92,12 @@ P = {
  "C08": None, "C11": None, "C18": None,
  "C09": dict(
   text="Theorems over Catalogue.load (regions, routing, structural configurations, grouping into majors/minors, naming, partial alleles of fusions, "
-       "duplicate removal, alias table) for every database: minors of one major pairwise distinct, every configuration exists, partition/major "
-       "distinctness at the grouping step, alias soundness, core = functional split, partial content = parent variants in retained regions "
-       "(the last four named *_partial: proved for the step of the construction that establishes them). NOT proved, decided on every run by "
-       "decidable predicates evaluated in Coq on the model's AND the implementation's catalogue: renaming keeps names unique, reachability by "
-       "get_allele, build independence. " + TIE + "All 38 shipped databases x {hg19, hg38} and generated databases (name collisions, fusions, "
+       "duplicate removal, alias table) for every database and every catalogue the loader returns: minors of one major pairwise distinct, every configuration exists, "
+       "core = function-altering / minors = the others (through naming, partial alleles and duplicate removal: C09_core_split), major names "
+       "unique and filed under their own name (C09_names_unique); for the step of the construction that establishes them (*_partial): "
+       "partition/major distinctness at grouping, alias soundness, partial content = parent variants in retained regions. NOT proved, decided "
+       "on every run by decidable predicates evaluated in Coq on the model's AND the implementation's catalogue: reachability by "
+       "get_allele, (structure, core set) distinct after renaming and partials, build independence. " + TIE + "All 38 shipped databases x {hg19, hg38} and generated databases (name collisions, fusions, "
        "duplicate definitions) are loaded by aldy.gene.Gene and by the model and compared field by field.",
   note=TRUST + "PyYAML. One open finding on shipped data (vkorc1 annotation order) in known_findings.json.",
   tech="Coq proof over executable Gallina model of the loader + exhaustive differential correspondence on shipped databases (vm_compute) + decidable clause predicates on implementation output"),
